@@ -500,7 +500,7 @@ def cmp_refine(c, r, out):
 # ------------------------------------------------------------------ stream: subdivide_cubic_bspline
 def gen_subdivide(rng, tier):
     for _ in range(_n(tier, 100, 2500)):
-        D = rng.choice([1, 2, 2, 2, 3, 3])
+        D = rng.choice([1, 1, 2, 2, 3, 3])
         hi = {1: 20, 2: 9, 3: 6}[D]
         L = [rng.choice([2, 4, rng.randint(2, hi), rng.randint(1, hi)]) for _ in range(D)]   # 1 → conv raises
         N, C = rng.choice([1, 2]), rng.choice([1, 2])
@@ -572,10 +572,11 @@ def impl_deriv(c):
     data = coeffs(c["shape"], c["cseed"], c["kind"], c["dtype"])
     st = c["stride"][0] if c["intstride"] else tuple(c["stride"])
     sp_arg, _ = _deriv_spacing(c)
-    key = "".join(sorted(c["code"]))
     if c["api"] == "image":
         d = spatial_derivatives(data, which=[c["code"]], mode="bspline", spacing=sp_arg, stride=st)
-        out = d[key]      # spatial_derivatives(mode='bspline') keys its result by the sorted code
+        if list(d.keys()) != [c["code"]]:
+            return f"err:glue:result keys {list(d.keys())} for which={[c['code']]}"
+        out = d[c["code"]]
     else:
         name = f"d{'uvw'[c['comp']]}/d{c['code']}"
         d = flow_derivatives(data, which=[name], mode="bspline", spacing=sp_arg, stride=st)
@@ -618,7 +619,7 @@ STREAMS = [
            doc="cubic_bspline_control_point_grid_size: sizes 1..40 x strides 1..16 exhaustively, invalid and sequence forms"),
     Stream("ctrl_grid", gen_ctrl_grid, impl_ctrl_grid, line_ctrl_grid, cmp_ctrl_grid,
            nontrivial=lambda c: max(c["stride"]) > 1,
-           doc="cubic_bspline_control_point_grid: size, origin/center, spacing, direction (as coded)"),
+           doc="cubic_bspline_control_point_grid: size, origin/center, spacing (= stride * image spacing), direction"),
     Stream("eval1d", gen_eval1d, impl_eval, line_eval, cmp_eval, exhaustive=True, nontrivial=nontrivial_eval,
            doc="evaluate_cubic_bspline on control-grid sized 1-D coefficients: sizes 1..40 x strides 1..16 x both algorithms"),
     Stream("evalnd", gen_evalnd, impl_eval, line_eval, cmp_eval, nontrivial=nontrivial_eval,
@@ -627,10 +628,10 @@ STREAMS = [
     Stream("ffd_u", gen_ffd, impl_ffd, line_ffd, cmp_ffd, nontrivial=lambda c: max(c["stride"]) > 1,
            doc="FreeFormDeformation(grid, stride, transpose).update().u vs model (data_shape, kernels, crop)"),
     Stream("ffd_refine", gen_refine, impl_refine, line_refine, cmp_refine, nontrivial=lambda c: any(c["sub"]),
-           doc="BSplineTransform.grid_(finer): subdivision + narrow crop of the parameters"),
+           doc="BSplineTransform.grid_(finer), D in {1,2,3}: subdivision + narrow crop of the parameters, rejected sizes"),
     Stream("subdivide", gen_subdivide, impl_subdivide, line_subdivide, cmp_subdivide,
            nontrivial=lambda c: max(c["shape"][2:]) > 1,
-           doc="subdivide_cubic_bspline: dims None/int/str/list, D in {1,2,3} (D=1 is rejected by both)"),
+           doc="subdivide_cubic_bspline: dims None/int/str/list, D in {1,2,3} (1-D (N, C, X) tensors included)"),
     Stream("deriv", gen_deriv, impl_deriv, line_deriv, cmp_deriv, nontrivial=lambda c: True,
            doc="image.spatial_derivatives / flow.flow_derivatives with mode='bspline': mixed orders 1..4, strides, spacing"),
 ]
@@ -932,6 +933,15 @@ def check_placement(c):
                         f"stride {c['stride']}: control index {j.tolist()} is at world {a.tolist()} but image index "
                         f"{((j - 1) * s).tolist()} is at {b.tolist()} (control grid spacing {cg.spacing().tolist()} = image spacing)")
             return ("C14:control_point_grid:placement", f"control index {j.tolist()} at {a.tolist()} vs {b.tolist()}")
+    # the control grid covers the image grid in world space: the last image sample has control coordinate t with
+    # one control point before and two after it (1 <= t, floor(t) + 2 <= n - 1, i.e. t + 2 < n); same for the first sample
+    m = torch.tensor([float(v) for v in g.size()], dtype=torch.float64)
+    for x in (torch.zeros_like(m), m - 1):
+        t = cg.world_to_index(g.index_to_world(x, decimals=None), decimals=None).double()
+        if bool((t < 1 - 1e-3).any()) or bool((t + 2 > n - 1e-3).any()):
+            key = "C14:control_point_grid:spacing-not-times-stride" if max(c["stride"]) > 1 else "C14:control_point_grid:cover"
+            return (key, f"stride {c['stride']}: image index {x.tolist()} has control coordinate {t.tolist()} in a control "
+                         f"grid of size {n.tolist()} (needs 1 <= t < n - 2)")
     return None
 
 
@@ -950,7 +960,7 @@ ORACLES = [
     Oracle("subdivision", gen_subdiv, check_subdiv, nontrivial=lambda c: True,
            doc="subdivide_cubic_bspline (repeated) and FFD.grid_(finer) (repeated) leave the function unchanged at common samples"),
     Oracle("placement", gen_placement, check_placement, nontrivial=lambda c: max(c["stride"]) > 1,
-           doc="cubic_bspline_control_point_grid: control index j lies at image index (j-1)*stride"),
+           doc="cubic_bspline_control_point_grid: control index j lies at image index (j-1)*stride; covers the image in world space"),
 ]
 
 
